@@ -401,15 +401,106 @@ func (x *Exec) applyModifies(post, pre *State, fr *Frame, env *Env, m *SExpr, wh
 		// abs(p): abstract state of interface value / object p
 		if m.X.K == "ident" && m.X.Name == "abs" && len(m.Args) == 1 {
 			ov := x.eval(env, m.Args[0])
-			ref := ov.L[len(ov.L)-1]
-			x.checkFrameAbs(post, fr, ref, where)
-			x.bumpVersion(post, ref)
+			x.modifyAbs(post, fr, ov, where, 0)
 			return
 		}
 		x.abort(post, "modifies: unsupported item "+m.String())
 	default:
 		x.abort(post, "modifies: unsupported item "+m.String())
 	}
+}
+
+// modifyAbs: the abstract state of a value changes.  For an object whose
+// abstraction is defined by contract functions over its own fields (a known
+// dynamic type with concrete pure methods) the footprint is the object itself
+// plus, recursively, the abstract state of the objects its fields refer to.
+func (x *Exec) modifyAbs(st *State, fr *Frame, ov Val, where string, depth int) {
+	if ov.A != nil || len(ov.L) == 0 {
+		return
+	}
+	ref := ov.L[len(ov.L)-1]
+	var dt types.Type
+	if ov.T != nil {
+		if _, isI := ov.T.Underlying().(*types.Interface); isI {
+			dt = x.E.dynamicType(ov)
+		} else if _, isP := ov.T.Underlying().(*types.Pointer); isP {
+			dt = ov.T
+		}
+	}
+	if dt != nil && depth < 4 {
+		if pt, ok := dt.Underlying().(*types.Pointer); ok {
+			if st2, ok := pt.Elem().Underlying().(*types.Struct); ok && x.E.hasConcreteAbstraction(pt.Elem()) {
+				foot := x.E.abstractionFields(pt.Elem())
+				off := 0
+				for i := 0; i < st2.NumFields(); i++ {
+					f := st2.Field(i)
+					n := x.tc.nleaves(f.Type())
+					a := &Addr{K: AHeap, Key: typeKey(pt.Elem()), Ref: ref, Off: off, T: f.Type(), contT: pt.Elem()}
+					off += n
+					if !foot[f.Name()] {
+						continue // the abstraction does not depend on this field
+					}
+					switch f.Type().Underlying().(type) {
+					case *types.Interface, *types.Pointer:
+						x.modifyAbs(st, fr, x.loadAddr(st, a), where, depth+1)
+					case *types.Basic:
+						// counters and flags that are part of the object's state
+						x.checkFrame(st, fr, a, where)
+						nv := x.freshVal("absfield."+f.Name(), f.Type(), nil)
+						x.storeAddr(st, a, nv)
+						st.assume(x.typeInv(x.loadAddr(st, a), st))
+					}
+				}
+				return
+			}
+		}
+	}
+	x.checkFrameAbs(st, fr, ref, where)
+	x.bumpVersion(st, ref)
+}
+
+// abstractionFields: the fields of a type that its contract functions read
+// (the footprint of its abstraction).
+func (E *Engine) abstractionFields(t types.Type) map[string]bool {
+	out := map[string]bool{}
+	n, ok := t.(*types.Named)
+	if !ok {
+		return out
+	}
+	var walk func(e *SExpr, recv string)
+	walk = func(e *SExpr, recv string) {
+		if e == nil {
+			return
+		}
+		if e.K == "sel" && e.X != nil && e.X.K == "ident" && e.X.Name == recv {
+			out[e.Name] = true
+		}
+		walk(e.X, recv)
+		walk(e.Y, recv)
+		walk(e.Z, recv)
+		for _, a := range e.Args {
+			walk(a, recv)
+		}
+	}
+	for k, pf := range E.pureMeths {
+		if strings.HasPrefix(k, n.Obj().Name()+".") && !pf.Abstract && !pf.Stable && pf.Recv != nil {
+			walk(pf.Body, pf.Recv.Name)
+		}
+	}
+	return out
+}
+
+func (E *Engine) hasConcreteAbstraction(t types.Type) bool {
+	n, ok := t.(*types.Named)
+	if !ok {
+		return false
+	}
+	for k, pf := range E.pureMeths {
+		if strings.HasPrefix(k, n.Obj().Name()+".") && !pf.Abstract && !pf.Stable {
+			return true
+		}
+	}
+	return false
 }
 
 func (x *Exec) bumpVersion(st *State, ref *Term) {
